@@ -69,9 +69,17 @@ W7 == { <<Boot, LBoot, PRet(0, "bootcap", 9, 0 - 1), LPark("boot", 101), LRel("b
           x \in { <<Call(2, 1, 1, "root", 9)>>, <<Call(2, 1, 1, "root", 9), Call(3, 1, 2, "root", 9)>>, <<>> },
           y \in { <<>>, <<Ret(1, "ok-nocap"), Fin(2, FALSE)>>, <<Call(4, 1, 3, "root", 9)>> } }
 
+\* W8: calls queued on an unreturned answer (Q1), one of them (Q2) returning a capability at once when it is delivered, a later one
+\* (Q3) slow to deliver, and a call (Q4) pipelined on Q2's answer: Q4 is delivered to the capability Q2 returns, behind Q2
+Auto(tag, k, noack) == [Act("a-auto") EXCEPT !.tag = tag, !.kind = k, !.n = (IF noack THEN 1 ELSE 0)]
+Slow(tag, ms) == [Act("a-slowdeliver") EXCEPT !.tag = tag, !.k = ms]
+W8 == { <<Boot, Call(2, 1, 1, "root", 0 - 1), Auto(2, "ok-newcap", na), Slow(3, ms), Call(3, 2, 2, "", 0 - 1), Call(4, 2, 3, "", 0 - 1), Call(5, 3, 4, "", 0 - 1)>>
+        \o extra \o <<Ret(1, "ok-newcap")>> :
+          na \in BOOLEAN, ms \in {0, 3}, extra \in { <<>>, <<Call(6, 3, 5, "", 0 - 1)>> } }
+
 VARIABLE done
 Init == done = FALSE
 Next == /\ ~done /\ done' = TRUE
-        /\ \A s \in W1 \cup W2 \cup W3 \cup W4 \cup W5 \cup W6 \cup W7 : PrintT(<<"SCRIPT", ToJson(s)>>)
+        /\ \A s \in W1 \cup W2 \cup W3 \cup W4 \cup W5 \cup W6 \cup W7 \cup W8 : PrintT(<<"SCRIPT", ToJson(s)>>)
 Spec == Init /\ [][Next]_done
 =============================================================================
